@@ -108,6 +108,7 @@ CASES = [
     "np.isscalar(3), np.isscalar(np.float64(3)), np.isscalar(np.asarray(3)), np.isscalar([1]), np.isscalar('a')",
     "np.iterable(3), np.iterable([3])",
     "np.hypot(3.0, 4.0), np.arctan2(1.0, 0.0), np.arctan2(0.0, -1.0) % (2 * np.pi)",
+    "np.arccos(1.0), np.arccos(-1.0), np.arcsin(0.0), np.arctan(0.0), np.arccos(np.asarray([0.0, 1.0]))",
     "np.sqrt(np.asarray([4.0, 9.0])), np.abs(np.asarray([-1, 2]))",
     "np.prod((2, 3)), np.prod(())",
     "np.asarray([[1, 2], [3, 4]]).flatten(), np.asarray([[1, 2], [3, 4]]).T.flatten()",
@@ -115,6 +116,7 @@ CASES = [
     "np.asarray([[1, 2, 3], [4, 5, 6]]).T.copy(order='K').ravel(order='K'), np.asarray([[1, 2, 3], [4, 5, 6]]).T.copy().ravel(order='K'), np.asarray([[1, 2, 3], [4, 5, 6]])[:, ::2].ravel(order='K')",
     "np.asfortranarray(np.asarray([[1, 2], [3, 4]])).ravel(order='K'), np.ascontiguousarray(np.asarray([[1, 2], [3, 4]]).T).ravel(order='K'), np.asarray([[1, 2], [3, 4]])[::-1].ravel(order='K')",
     "np.asarray([1, 2, 3])[::-1], np.asarray([1, 2, 3])[5:], np.asarray([1, 2, 3])[-2:]",
+    "np.nan_to_num(np.asarray([1.5, np.nan, 3.0])), np.nan_to_num(np.asarray([1, 2])), np.nan_to_num(np.asarray([np.nan, np.nan, 2.0])).dtype",
     "np.asarray([[0.0, 1.0], [1.0, 2.0]])[1:, 0], np.asarray([[0.0, 1.0], [1.0, 2.0]])[:-1, 1]",
     "np.promote_types('int16', 'float16'), np.can_cast('int64', 'float64'), np.can_cast('float64', 'int64')",
     "np.dtype(int) == np.int64, np.dtype('float32').kind, str(np.dtype(np.int16)), np.dtype(float).type is np.float64",
@@ -133,6 +135,8 @@ CASES = [
 ]
 
 ERROR_CASES = [
+    "np.asarray([[1, 2], [3, 4]]).cumsum(axis='x')",
+    "np.asarray([[1, 2], [3, 4]]).sum(axis='x')",
     "np.asarray([[1, 2], [3]])",
     "np.asarray([1, 2]) + np.asarray([1, 2, 3])",
     "np.asarray([1, 2, 3])[5]",
